@@ -102,16 +102,31 @@ theorem cons_dayTombs (db : Db) (k : Key) (d d' : Day) (h1 : d' ≠ d) (rows : L
 theorem recomputeLog_mem {db : Db} {e' : LogEntry} (h : e' ∈ recomputeLog db) :
     ∃ e ∈ db.log, e'.day = e.day ∧
       ((e.dirty = true ∧ e'.dirty = false ∧ Fresh db e') ∨ (e.dirty = false ∧ e' = e)) := by
-  simp only [recomputeLog, List.mem_map] at h
-  obtain ⟨e, he, rfl⟩ := h
+  simp only [recomputeLog, List.mem_filterMap] at h
+  obtain ⟨e, he, h2⟩ := h
   refine ⟨e, he, ?_⟩
   by_cases hd : e.dirty = true
-  · simp [hd, Fresh]
-  · simp at hd; simp [hd]
+  · simp only [hd, ↓reduceIte] at h2
+    split at h2
+    · cases h2
+    · simp only [Option.some.injEq] at h2
+      subst h2
+      simp [hd, Fresh]
+  · simp at hd
+    simp only [hd, Bool.false_eq_true, ↓reduceIte, Option.some.injEq] at h2
+    subst h2
+    simp [hd]
 
-theorem recomputeLog_days {db : Db} {e : LogEntry} (h : e ∈ db.log) : ∃ e' ∈ recomputeLog db, e'.day = e.day := by
-  refine ⟨_, List.mem_map_of_mem h, ?_⟩
-  by_cases hd : e.dirty = true <;> simp [hd]
+/-- an entry survives the recomputation unless it is flagged and its day holds nothing -/
+theorem recomputeLog_days {db : Db} {e : LogEntry} (h : e ∈ db.log) (hc : 0 < count db e.day) :
+    ∃ e' ∈ recomputeLog db, e'.day = e.day := by
+  simp only [recomputeLog, List.mem_filterMap]
+  by_cases hd : e.dirty = true
+  · have : ¬ count db e.day = 0 := by omega
+    exact ⟨{ day := e.day, count := count db e.day, hash := digest db e.day, dirty := false },
+      ⟨e, h, by simp [hd, this]⟩, rfl⟩
+  · simp at hd
+    exact ⟨e, ⟨e, h, by simp [hd]⟩, rfl⟩
 
 theorem applyStmt_workInv (marks : Bool) (w : Work) (s : Stmt) (hw : WorkInv w)
     (hm : marks = true ∨ s.touchesLog = false) : WorkInv (applyStmt marks w s) := by
@@ -192,8 +207,8 @@ theorem applyStmt_workInv (marks : Bool) (w : Work) (s : Stmt) (hw : WorkInv w)
       have hd2 : 0 < count w.1 d' := hd'
       rcases hw.2 d' hd2 with h | ⟨e, he, hday⟩
       · exact Or.inl h
-      · obtain ⟨e', he', hd2⟩ := recomputeLog_days he
-        exact Or.inr ⟨e', he', by rw [hd2, hday]⟩
+      · obtain ⟨e', he', hd3⟩ := recomputeLog_days (db := w.1) he (by rw [hday]; exact hd2)
+        exact Or.inr ⟨e', he', by rw [hd3, hday]⟩
 
 theorem applyStmts_workInv (marks : Bool) (l : List Stmt) (w : Work) (hw : WorkInv w)
     (hm : marks = true ∨ ∀ s ∈ l, s.touchesLog = false) : WorkInv (applyStmts marks w l) := by
@@ -324,7 +339,7 @@ theorem restart_clean {db : Db} (h : LogInv db) : LogClean (restart db).db := by
   · intro d hd
     have hd2 : 0 < count db d := hd
     obtain ⟨e, he, hday⟩ := h.2 d hd2
-    obtain ⟨e', he', hd'⟩ := recomputeLog_days he
+    obtain ⟨e', he', hd'⟩ := recomputeLog_days he (by rw [hday]; exact hd2)
     exact ⟨e', he', by rw [hd', hday]⟩
 
 theorem LogClean.inv {db : Db} (h : LogClean db) : LogInv db :=
